@@ -9,8 +9,8 @@ from callsets import render_vcf, bgzf_compress, vcf_to_bcf, model_records, model
 from gen_create import random_callset, random_map, pop_sizes, random_projection
 
 RULE = ("random diploid call sets (1-10 samples, 0-60 records) x sample maps x optional projection, each rendered as plain VCF, "
-        "BGZF VCF in 4 block layouts (64 KiB blocks; one line per block; tiny irregular blocks with empty blocks interleaved; "
-        "no EOF block), BGZF BCF and raw BCF (noodles writer), supplied by path and on stdin, with --threads in {1,2,3,4,8,16} "
+        "BGZF VCF in 7 block layouts (64 KiB blocks; one line per block; tiny irregular blocks with empty blocks interleaved; "
+        "no EOF block; an empty first block; a first block of 1 and of 2 bytes), BGZF BCF and raw BCF (noodles writer), supplied by path and on stdin, with --threads in {1,2,3,4,8,16} "
         "(quick: 3 of them per form), each configuration repeated (fresh process = fresh hash seeds): stdout must be "
         "byte-identical across ALL forms and equal exit status, and equal to the proved model's output on the abstract call "
         "set. non-trivial = call set with >= 2 populations or a projection")
@@ -31,12 +31,18 @@ def check(rep, tier, seed):
         forms = {"vcf": vcf, "vcf.gz": bgzf_compress(vcf),
                  "vcf.gz-line-per-block": bgzf_compress(vcf, sizes=[len(l) + 1 for l in lines]),
                  "vcf.gz-tiny": bgzf_compress(vcf, sizes=[7, 113, 29, 1000], empty_every=2),
-                 "vcf.gz-noeof": bgzf_compress(vcf, eof=False)}
+                 "vcf.gz-noeof": bgzf_compress(vcf, eof=False),
+                 "vcf.gz-empty-first": bgzf_compress(vcf, sizes=[4000], empty_first=True),
+                 "vcf.gz-first-1-byte": bgzf_compress(vcf, sizes=[1, 2, 5000]),
+                 "vcf.gz-first-2-bytes": bgzf_compress(vcf, sizes=[2, 1, 1, 5000])}
         raw = vcf_to_bcf(vcf, "c12_%d" % k, "raw")
         if raw is not None:
             forms["bcf-raw"] = raw
             forms["bcf"] = bgzf_compress(raw)
             forms["bcf-tiny-blocks"] = bgzf_compress(raw, sizes=[64, 300, 17], empty_every=3)
+            forms["bcf-empty-first"] = bgzf_compress(raw, empty_first=True)
+            forms["bcf-first-1-byte"] = bgzf_compress(raw, sizes=[1, 1, 1, 6000])
+            forms["bcf-first-2-bytes"] = bgzf_compress(raw, sizes=[2, 3, 6000])
             nb = vcf_to_bcf(vcf, "c12n_%d" % k, "bgzf")
             if nb is not None:
                 forms["bcf-noodles-bgzf"] = nb
